@@ -50,6 +50,14 @@ CLAIMED = {
             "Runtime monitoring: every method of every generated router found in the tree is driven with random requests and scripted responses (k messages, header, trailer, error at any position) against recording fake clients per name; registry histories against a map model with the exact change log; concurrent first Gets forced window by window; default-name interceptors over all request types; and the real protoc-gen-router / protoc-gen-wrapper are rebuilt and re-run on the linked-in API descriptors and compared declaration by declaration with the checked-in files. A router or service in the tree without a table entry is reported.",
             "Unary response headers/trailers and fallback-vs-factory precedence are observed, not judged; regeneration compares go/printer forms (import grouping is a note).",
             "DESIGN.md §4 C12"),
+    "C13": ("differential execution: the same lock-step call script through wrap.ServerToClient and through a real gRPC server on bufconn, client-side transcripts compared; quiescence-based hang/leak oracle on the wrapped side",
+            "Runtime monitoring: an exhaustive grid (0-2, thorough 0-3 messages per direction) and random scripts for unary, unary-as-stream, server-, client- and bidi-streaming calls with SetHeader/SendHeader/SetTrailer at each position, error codes at each position, client half-close/cancel/deadline at each position and pre-cancelled contexts are executed on both transports; response messages and order, terminal outcome, user header and trailer keys are compared; messages mutated on one side must not show on the other; unknown methods and mismatched shapes; after every wrapped call no pkg/wrap goroutine may remain at the quiescent point.",
+            "Scripts are lock-step (every send meets a ready receiver); cancellation and deadline are compared as classes; harness-triggered deadline contexts; server-side observations after the client left are counted, not judged.",
+            "DESIGN.md §4 C13"),
+    "C14": ("online relations monitor through the full wrapper-router-wrapper stack, triples discovered from service descriptors, servers discovered from the source tree; streams judged at quiescent points; crash isolation per step",
+            "Runtime monitoring: for every model server / memory device found in the tree that has a Get/Update/Pull triple, random histories of updates (valid, rule-violating, masked), masked Gets and 0-2 open Pull streams run through WrapApi(router(WrapApi(server))): Update response = next Get, masked Get = projection of the full Get, a new Pull starts with the current value, every large change appears on every open stream with the response's value and the Pull request's name, a rejected Update leaves Get unchanged, update masks are honoured, and the process must not die.",
+            "Servers without an Update RPC are out of domain; lightpb.MemoryDevice only with zero tween duration and hail without wall-clock GC; a server type found in the tree but missing from the table makes the run inconclusive.",
+            "DESIGN.md §4 C14"),
     "C15": ("online oracle over page walks: concatenation of the pages followed by next_page_token vs the model's full listing, plus hostile inputs under recover / child-process isolation",
             "Runtime monitoring: for each of the seven paged List RPCs, collections of sizes 0-60 and the boundary sizes with random ids (prefixes of each other included) are walked with every page size of the property's list (mixed sizes too), directly and through the wrapped stack; every walk must return each item exactly once in listing order, pages no longer than the effective size, total_size right and a finite chain. Negative sizes and corrupted tokens (truncated, bit-flipped, non-base64, foreign, out-of-range numeric) must be answered with an error status, never a panic or an endless chain.",
             "Collection contents are held fixed while paging; a token that decodes may be honoured; read masks are an extra dimension (keys with suffix mask-without-key).",
